@@ -218,8 +218,15 @@ def run_pumped(ctx):
         if not (isinstance(r, str) and r in ('tree', 'ParseException')):
             ctx.violation('c13:total:pumped:%s' % (r if isinstance(r, str) else r[1]), dict(kind='total', family='pumped', text=items[i]),
                           'parsing %r: %r instead of a tree or ParseException' % (items[i][:60], r), 'tree or ParseException', r)
-    for i in slow:
+    confirmed = 0
+    for i in sorted(slow, key=lambda k: (len(items[k]), k)):
+        if confirmed >= 3:
+            # enough confirmed cases (shortest first): confirming several hundred more one at a time would take the better
+            # part of an hour under a lexer whose matching time explodes
+            ctx.count('slow_not_confirmed_after_three_confirmed')
+            continue
         if watchdog.confirm_slow(_parse_outcome, items[i], budget):
+            confirmed += 1
             ctx.violation('c13:time', dict(kind='time', text=items[i]),
                           'parsing the %d-character input %r does not finish within %.0f s (three runs, two of them alone in a fresh '
                           'process)' % (len(items[i]), items[i][:40] + '...', budget), 'about 1 ms', '> %.0f s' % budget,
